@@ -179,7 +179,7 @@ impl Check for C17 {
         "C17"
     }
     fn rule(&self) -> String {
-        "a foreign-publisher repository (0..4 top-level targets with custom data, 0..2 delegated roles of depth <=2 with 1..3 keys / thresholds 1..3 and their own targets and unknown members, 0..2 unknown top-level members in each of targets, snapshot, timestamp) is loaded, passed through RepositoryEditor::from_repo with new versions/expirations and 0..3 added targets, signed, written and loaded again; non-trivial = the original carried at least one unknown member or delegated role and the update was written; distinct = distinct canonical trace".into()
+        "a foreign-publisher repository (0..4 top-level targets with custom data, in a third of the runs one of them under a name that needs resolution (alias/../n, ./n, a/b/../../n) and/or an added target that resolves to the same path as an existing one under another name, 0..2 delegated roles of depth <=2 with 1..3 keys / thresholds 1..3 and their own targets and unknown members, 0..2 unknown top-level members in each of targets, snapshot, timestamp) is loaded, passed through RepositoryEditor::from_repo with new versions/expirations and 0..3 added targets, signed, written and loaded again; non-trivial = the original carried at least one unknown member or delegated role and the update was written; distinct = distinct canonical trace".into()
     }
     fn assumptions(&self) -> Vec<String> {
         vec![
@@ -197,7 +197,7 @@ impl Check for C17 {
         }
     }
     fn required_faults(&self, _t: Tier) -> Vec<&'static str> {
-        vec!["unknown_member_in_targets", "unknown_member_in_snapshot", "unknown_member_in_timestamp", "delegated_roles_present", "custom_data_present"]
+        vec!["unknown_member_in_targets", "unknown_member_in_snapshot", "unknown_member_in_timestamp", "delegated_roles_present", "custom_data_present", "target_name_needing_resolution"]
     }
     fn required_probes(&self, _t: Tier) -> Vec<&'static str> {
         vec!["update_written_and_reloaded", "everything_preserved"]
@@ -209,11 +209,33 @@ impl Check for C17 {
             roles.push(gen_role(&mut r, &format!("role{j}"), 1));
         }
         let mut added = gen_targets(&mut r, "new", 3, false);
-        added.retain(|t| !t.name.contains('/') || true);
+        let mut top_targets = gen_targets(&mut r, "top", 4, false);
+        // names that need resolution, and additions that resolve to the same path as an existing
+        // target without being the same name (both are distinct targets and both must survive)
+        if !top_targets.is_empty() && r.chance(1, 3) {
+            let i = r.usize_below(top_targets.len());
+            let plain = top_targets[i].name.clone();
+            let alias = match r.below(3) {
+                0 => format!("alias/../{plain}"),
+                1 => format!("./{plain}"),
+                _ => format!("a/b/../../{plain}"),
+            };
+            match r.below(3) {
+                // the existing target is path-like, the addition is the plain spelling
+                0 => {
+                    top_targets[i].name = alias;
+                    added.push(TargetM { name: plain, size: 1 + r.usize_below(64), seed: r.next_u64(), custom: 0 });
+                }
+                // the existing target is plain, the addition is a path-like spelling
+                1 => added.push(TargetM { name: alias, size: 1 + r.usize_below(64), seed: r.next_u64(), custom: 0 }),
+                // only the existing target is path-like
+                _ => top_targets[i].name = alias,
+            }
+        }
         Sc {
             world: r.below(1_000_003),
             consistent: r.chance(1, 2),
-            top_targets: gen_targets(&mut r, "top", 4, false),
+            top_targets,
             roles,
             extra_targets: pick_extras(&mut r),
             extra_snapshot: pick_extras(&mut r),
@@ -276,6 +298,9 @@ impl Check for C17 {
         }
         if sc.top_targets.iter().any(|t| t.custom != 0) {
             o.fault("custom_data_present");
+        }
+        if sc.top_targets.iter().chain(sc.added.iter()).any(|t| t.name.contains("/../") || t.name.starts_with("./")) {
+            o.fault("target_name_needing_resolution");
         }
         let meta = orig.meta.clone();
         let transport = SimTransport::new(move |r| if r.base == Base::Metadata { meta.get(&r.rel).map_or(Resp::not_found(), |b| Resp::whole(b)) } else { Resp::not_found() });
